@@ -1,7 +1,7 @@
 #!/venv/bin/python
 """check.py <Cnn> [--tier quick|thorough] [--seed N] [--replay FILE]
 
-Parent mode: spawns shard children (fresh interpreters, PYTHONHASHSEED=0), merges what
+Parent mode: spawns shard children (fresh interpreters, PYTHONHASHSEED=0 for seed 0, derived from the run seed otherwise), merges what
 their monitors observed, writes evidence/<id>.json, prints the verdict lines.
 Exit 0 held / 1 violated (VIOLATION line) / 2 inconclusive.
 """
@@ -107,7 +107,18 @@ def main():
                     continue
                 env_extra.update(twins.env_for(mode, tdir))
             for i in range(nshards):
-                plan.append((mode, i, env_extra))
+                e = dict(env_extra)
+                if args.replay:
+                    try:
+                        e['PYTHONHASHSEED'] = str(json.load(open(args.replay)).get('hashseed', '0'))
+                    except Exception:  # noqa
+                        pass
+                elif args.seed:
+                    # workload diversity: every run seed other than 0 also selects a str-hash seed (set / dict-of-str
+                    # iteration orders differ from run to run); one value for all shards of a run, so that index-based
+                    # work partitioning stays consistent; recorded in every witness and restored by --replay
+                    e['PYTHONHASHSEED'] = str((args.seed * 2654435761) % 4294967295)
+                plan.append((mode, i, e))
         pending = list(plan)
         running = []
         maxpar = int(os.environ.get('VERIF_JOBS', os.cpu_count() or 4))
